@@ -107,6 +107,28 @@ fn main() {
                 usage();
             }
             let Some(prop) = props::by_id(&args[2]) else { std::process::exit(2) };
+            // A recorded CRASH (signal / abort under the resource limits of the worker) kills the process that
+            // replays it: run the replay in a child and report its death as the violation it is.
+            let recorded_oracle = std::fs::read_to_string(&args[3]).ok().and_then(|s| serde_json::from_str::<serde_json::Value>(&s).ok()).and_then(|v| v["oracle"].as_str().map(|s| s.to_string())).unwrap_or_default();
+            if (recorded_oracle.starts_with("crash:") || recorded_oracle.starts_with("timeout")) && std::env::var("WALRUS_DST_REPLAY_INNER").is_err() {
+                let exe = std::env::current_exe().expect("current_exe");
+                let st = std::process::Command::new(exe).args(&args[1..]).env("WALRUS_DST_REPLAY_INNER", "1").status();
+                use std::os::unix::process::ExitStatusExt;
+                match st {
+                    Ok(st) if st.signal().is_some() => {
+                        println!("VIOLATION property={} replay={}", prop.id(), args[3]);
+                        println!("  oracle=crash:signal{} detail=the process replaying this input under the worker's resource limits died with signal {} (recorded: {})", st.signal().unwrap(), st.signal().unwrap(), recorded_oracle);
+                        std::process::exit(1);
+                    }
+                    Ok(st) => std::process::exit(st.code().unwrap_or(2)),
+                    Err(e) => {
+                        eprintln!("HARNESS: cannot start the replay child: {}", e);
+                        std::process::exit(2);
+                    }
+                }
+            }
+            // the resource limits of a worker are part of the fault environment of the run
+            prop.worker_init();
             let env = framework::make_env(verif_seed, Tier::Quick, "rpl");
             let r = framework::replay_file(prop, &env, std::path::Path::new(&args[3]));
             let _ = std::fs::remove_dir_all(&env.scratch);
@@ -209,7 +231,7 @@ fn main() {
                     ser::run_history(&b1, &c1, &o1, 0, &ctx)
                 })
                 .expect("serial run");
-                let knobs = types::SimKnobs { threads, steal_p: 0, log_thin: 4, strategy: types::Strategy::Random, sched_seed: 0, edge_thin: 0, atomic_thin: 0 };
+                let knobs = types::SimKnobs { threads, steal_p: 0, log_thin: 4, strategy: types::Strategy::Random, sched_seed: 0, edge_thin: 0, atomic_thin: 0, spurious_wake: 0 };
                 let (b2, c2, o2) = (g.bytes.clone(), cfg.clone(), ops.clone());
                 let o = simrt::run_sim(&knobs, None, Some(2), move || {
                     let ctx = par::Ctx { unrelated: &[], scratch: &scratch, run_tag: 0 };
